@@ -62,12 +62,16 @@ class Timeout(Exception):
 
 
 class Run(object):
-    def __init__(self, base):
+    def __init__(self, base, fresh_dir=False):
         self.base = base
         self.ctl = os.path.join(base, "ctl")
         self.dll = os.path.join(base, "dll")
-        for d in (self.ctl, self.dll):
-            os.makedirs(d)
+        os.makedirs(self.ctl)
+        if fresh_dir:
+            # the cache directory (several levels deep) does not exist yet: the first users create it
+            self.dll = os.path.join(base, "dll", "a", "b", "c")
+        else:
+            os.makedirs(self.dll)
         self.plugin = os.path.join(base, "plug18.py")
         with open(self.plugin, "w") as fh:
             fh.write(PLUGIN)
@@ -80,8 +84,10 @@ class Run(object):
     def spawn(self, wid):
         if self.free_run:
             os.environ["VERIF_FREE_RUN"] = "1"
+            os.environ["VERIF_SYNC_AFTER_IMPORT"] = "1"
         else:
             os.environ.pop("VERIF_FREE_RUN", None)
+            os.environ.pop("VERIF_SYNC_AFTER_IMPORT", None)
         envd = dict(os.environ, VERIF_CTL=self.ctl, VERIF_WID=str(wid), SAS_DLL_PATH=self.dll,
                     CC="%s %s" % (sys.executable, os.path.join(env.VERIF_ROOT, "vp", "c18_fakecc.py")),
                     PYTHONPATH=env.VERIF_ROOT, PYTHONHASHSEED="0", TMPDIR=self.base)
@@ -202,14 +208,17 @@ def schedules(draw, nmax):
 @st.composite
 def free_runs(draw, nmax):
     n = draw(st.integers(2, nmax))
-    return {"n": n, "schedule": [], "kill": None, "free_run": True,
-            "delays": [draw(st.sampled_from([0, 0, 5, 20, 60, 150, 300, 450])) for _ in range(n)]}
+    fresh_dir = draw(st.integers(0, 2)) > 0
+    return {"n": n, "schedule": [], "kill": None, "free_run": True, "fresh_dir": fresh_dir,
+            "delays": [0 if fresh_dir else draw(st.sampled_from([0, 0, 5, 20, 60, 150, 300, 450])) for _ in range(n)]}
 
 
 def check_schedule(case, rec):
     base = tempfile.mkdtemp(prefix="c18_", dir=os.environ.get("TMPDIR"))
-    run = Run(base)
+    run = Run(base, fresh_dir=bool(case.get("fresh_dir")))
     n, kill = case["n"], case["kill"]
+    if case.get("fresh_dir"):
+        rec.cls("cache-directory-does-not-exist-yet")
     rec.cls("n=%d" % n)
     run.free_run = bool(case.get("free_run"))
     if run.free_run:
@@ -442,7 +451,7 @@ def run_shard(ctx, spec):
                 kill["target"] = "compiler"
             ctx.run_case("schedule", {"n": 2, "schedule": pre, "kill": kill})
     ctx.explore("schedule", schedules(4 if quick else 16), 2 if quick else 30, shrink=False)
-    ctx.explore("schedule", free_runs(6 if quick else 16), 2 if quick else 25, shrink=False, salt=7)
+    ctx.explore("schedule", free_runs(6 if quick else 16), 4 if quick else 30, shrink=False, salt=7)
     # both placements of TMPDIR are enumerated (Hypothesis' first example is always the simplest one)
     ctx.run_case("trace", {"cross_fs": bool(spec["k"] % 2), "k": spec["k"] % 4})
     if not quick:
